@@ -11,6 +11,7 @@ import (
 	"reflect"
 	"strings"
 	"time"
+	"unicode/utf16"
 	"unicode/utf8"
 
 	"github.com/Vedant9500/WTF/internal/database"
@@ -95,7 +96,7 @@ func c10Entries(r *rand.Rand, hostile bool) []vlib.Cmd {
 }
 
 func c10GenFile(r *rand.Rand, k int) c10File {
-	switch k % 12 {
+	switch k % 13 {
 	case 0: // block layout, every string double-quoted with full escaping (well-formed by construction), hostile strings included
 		e := c10Entries(r, true)
 		return c10File{Class: "wellformed-block", Content: c10Emit(e, false), Expected: e}
@@ -107,6 +108,28 @@ func c10GenFile(r *rand.Rand, k int) c10File {
 			e[i].Description = []string{"\x00", "desc\x00", "a\x00b c"}[r.Intn(3)] + e[i].Description
 		}
 		return c10File{Class: "wellformed-flow", Content: c10Emit(e, true), Expected: e}
+	case 12: // the same by-construction document encoded as UTF-16 with a byte-order mark (what PowerShell `>` or Notepad "Unicode" writes)
+		e := c10Entries(r, false)
+		for i := range e { // valid UTF-8 only: the document is transcoded
+			if !utf8.ValidString(e[i].Command+e[i].Description+strings.Join(e[i].Keywords, "")+strings.Join(e[i].Tags, "")+e[i].Niche+strings.Join(e[i].Platform, "")) {
+				e[i] = vlib.Cmd{Command: "plain", Description: "entry"}
+			}
+		}
+		doc := []rune(string(c10Emit(e, r.Intn(2) == 0)))
+		le := r.Intn(2) == 0
+		var b []byte
+		put := func(u uint16) {
+			if le {
+				b = append(b, byte(u), byte(u>>8))
+			} else {
+				b = append(b, byte(u>>8), byte(u))
+			}
+		}
+		put(0xFEFF)
+		for _, u := range utf16.Encode(doc) {
+			put(u)
+		}
+		return c10File{Class: "wellformed-utf16", Content: b, Expected: e}
 	case 2: // anchors and aliases, literal scalars
 		txt := "- &a\n  command: \"tar -czf x.tgz dir\"\n  description: |\n    compress a directory\n    second line\n  keywords: &k [tar, compress]\n- *a\n- command: 'it''s'\n  description: >-\n    folded\n    text\n  keywords: *k\n  pipeline: yes\n"
 		e := []vlib.Cmd{{Command: "tar -czf x.tgz dir", Description: "compress a directory\nsecond line\n", Keywords: []string{"tar", "compress"}},
